@@ -7,7 +7,7 @@ import tempfile
 import astwire
 from gens.programs import Opts, Gen
 
-THEOREMS = []
+THEOREMS = ['findLoops_is_source_order', 'n_loops_is_source_count']
 RULE = ('generated C files (1-3 functions) with loops nested in branches, blocks, labelled statements, other loops and '
         '(unsupported) switch bodies, empty-bodied loops, non-counted for loops; compared: FindLoops with the generic '
         'pre-order traversal Spec.allLoops (Lean), loop-mode results (one per loop with a non-empty body, source '
